@@ -106,7 +106,7 @@ def _top_split(s):
 
 
 def worker(version, args):
-    common.lib_setup()
+    common.lib_setup(xs_check=True)
     from AoE2ScenarioParser.scenarios.aoe2_de_scenario import AoE2DEScenario
     R = common.Result(RULE); R.export_keys = True
     drv = common.Driver(args["driver"]) if args.get("driver") else None
